@@ -34,8 +34,15 @@ func vCountPubs(t *vTransport, ch string, from int) int {
 //   3 server-side Subscribe
 //   4 server-side Unsubscribe
 //   5 close
+//   6 client subscribe command, handler rejects it from another goroutine
+var vOpReject bool
+
 func vOp(c *Client, op int, id uint32, ch string, async *bool) {
 	switch op {
+	case 6:
+		*async = true
+		vOpReject = true
+		c.HandleCommand(&protocol.Command{Id: id, Subscribe: &protocol.SubscribeRequest{Channel: ch}}, 0)
 	case 0:
 		*async = false
 		c.HandleCommand(&protocol.Command{Id: id, Subscribe: &protocol.SubscribeRequest{Channel: ch}}, 0)
@@ -63,13 +70,18 @@ func vh_C04_routing_matches_state() {
 	asyncReply := false
 	n.OnConnect(func(c *Client) {
 		c.OnSubscribe(func(e SubscribeEvent, cb SubscribeCallback) {
+			var err error
+			if vOpReject {
+				err = ErrorPermissionDenied
+			}
 			if asyncReply {
-				go cb(SubscribeReply{}, nil)
+				go cb(SubscribeReply{}, err)
 				return
 			}
-			cb(SubscribeReply{}, nil)
+			cb(SubscribeReply{}, err)
 		})
 	})
+	vOpReject = false
 	tr := vNewTransport()
 	c := vNewClient(n, "u", tr)
 	vAssert(vConnect(c), "connects")
@@ -79,8 +91,9 @@ func vh_C04_routing_matches_state() {
 		vSettle()
 		vAssert(c.IsSubscribed("ch"), "pre-subscribed")
 	}
-	opA := vChoice("opA", 6)
-	opB := vChoice("opB", 6)
+	nops := vParam("c04_ops", 7)
+	opA := vChoice("opA", nops)
+	opB := vChoice("opB", nops)
 	vAssume(opA <= opB) // symmetric pairs once; start order is a separate choice
 	first := vChoice("first", 2)
 	doneA, doneB := false, false
